@@ -1,4 +1,5 @@
 import CandidModel.Proofs.Wire
+import CandidModel.Proofs.NativeRound
 /-
   C01 — Native encode/decode round-trip is the identity, whatever ran before.
   Native encoding goes through the same `TypeSerialize` / `ValueSerializer` as untyped encoding (C03); the
@@ -51,5 +52,49 @@ theorem u128_decode_of_uleb (n : Nat) (r : Bytes) (h : n < 2 ^ 128) :
 /-- Nat (big number): `Nat::decode` inverts the minimal encoding for every natural number -/
 theorem nat_decode_of_uleb (n : Nat) (r : Bytes) : Impl.natDecode (uleb n ++ r) = .ok (n, r) := by
   rw [natDecode_spec, specReadNat_uleb]
+
+
+/-! ## the native decoder mirror inverts the writer -/
+open Candid.Native Candid.De
+
+/-- **native decoding of what was written returns the value** (mirror of `get_value::<T>()`, `CandidModel/Native.lean`).
+For every environment, every Rust type `t` of the grammar and every value `v` of `t` at its Candid type `e` within
+reach of the depth budget `k` (`wt`: primitives, `u128` / `i128` within their range, `Nat` / `Int`, text, principals,
+`Reserved`, byte buffers, options, vectors and sets — through the bulk reader, the big-number shortcut or element by
+element —, arrays of their own length, bounded vectors within their limits, tuples, newtype structs, maps — with
+their text-key and big-number shortcuts —, derived structs and enums, named recursive types): from the bytes the
+value writer produces for `v`, followed by anything, with nothing metered, at wire type = expected type, the mirror
+returns exactly `v` and leaves exactly what followed.  Not covered by `wt` (and so by this theorem): function and
+service references (their read goes through the subtype checker, whose acceptance of a type against itself within its
+budget is not a theorem here). -/
+theorem native_decoding_inverts_encoding (mk : String → NR) (env : Env) (tl : Nat) (renv : REnv) (k : Nat) (t : RTy)
+    (e : Ty) (v : Val) (fs : Nat) (b r : Bytes) (st : St) (hwt : wt env renv k t e v = true) (hs : serVal fs v = .ok b)
+    (hu : Unmetered st) (hin : st.input = b ++ r) :
+    ∃ fl', deN mk env tl renv k t Flags.clear e e st = .ok (v, fl') { st with input := r } := by
+  obtain ⟨fl', _, h⟩ := deN_round mk env tl renv k t e e v Flags.clear fs b r st hwt (Rel.refl env e) (FlagsFit.clear e e) hs hu hin
+  exact ⟨fl', h⟩
+
+/-- … also when the wire type is the unfolding of the expected type (what a vector hands its elements), and under a
+shortcut flag that fits the position -/
+theorem native_decoding_inverts_encoding_under_flags (mk : String → NR) (env : Env) (tl : Nat) (renv : REnv) (k : Nat)
+    (t : RTy) (w e : Ty) (v : Val) (fl : Flags) (fs : Nat) (b r : Bytes) (st : St) (hwt : wt env renv k t e v = true)
+    (hrel : Rel env w e) (hf : FlagsFit fl w e) (hs : serVal fs v = .ok b) (hu : Unmetered st) (hin : st.input = b ++ r) :
+    ∃ fl', (fl' = fl ∨ fl' = Flags.clear) ∧ deN mk env tl renv k t fl w e st = .ok (v, fl') { st with input := r } :=
+  deN_round mk env tl renv k t w e v fl fs b r st hwt hrel hf hs hu hin
+
+/-- non-vacuity: a `BTreeMap<u8, Vec<Nat>>` with one entry is a value of its type within depth 6 (bulk-free key, big-number
+shortcut for the elements of the value) -/
+example : wt [] [] 6 (.map (.prim .nat8) (.seq .nat))
+    (.vec (.record (.cons (.id 0) (.prim .nat8) (.cons (.id 1) (.vec (.prim .nat)) .nil))))
+    (.vec [.record [(.id 0, .nat8 7), (.id 1, .vec [.nat 5, .nat 300])]]) = true := by decide
+
+/-- non-vacuity: a vector of a newtype struct around `u16` (the bulk reader, through the wrapper) -/
+example : wt [] [] 4 (.seq (.newtype (.prim .nat16))) (.vec (.prim .nat16)) (.vec [.nat16 1, .nat16 65535]) = true := by
+  decide
+
+/-- non-vacuity: `[u8; 2]` as a blob of its own length, and a bounded vector of `u64` within its limits -/
+example : wt [] [] 3 (.array 2 (.prim .nat8)) (.vec (.prim .nat8)) (.blob [1, 2]) = true := by decide
+example : wt [] [] 3 (.bounded 18446744073709551615 16 18446744073709551615 (.prim .nat64)) (.vec (.prim .nat64))
+    (.vec [.nat64 1, .nat64 2]) = true := by decide
 
 end Candid.Props.C01
